@@ -15,7 +15,7 @@ def run_stream(ck, coins, stream, release=False, check_ref=True, label=''):
     reqs = []
     for k, (tag, s) in enumerate(stream):
         # every script on one coin (rotating); templates, slot forms and no-op insertions on every coin (the verdict depends on the coin only through the version byte)
-        every = len(coins) <= 2 or ':' not in tag or tag.startswith(('nop:', 'ms_', 'samehash', 'witness:fixed')) or (tag.startswith('slot:') and len(s) < 700)
+        every = len(coins) <= 2 or ':' not in tag or tag.startswith(('nop:', 'ms_', 'samehash', 'witness:fixed', 'nameop:')) or (tag.startswith('slot:') and len(s) < 700)
         for j, coin in enumerate(coins):
             if every or j == k % len(coins): reqs.append((tag, s, coin))
     impl = run.hook_lines(ck.tools, 'script-eval', ['%02x %s' % (COINS[c]['ver'], s.hex() if s else '-') for _, s, c in reqs], release=release)
@@ -49,7 +49,7 @@ def explore(ck, coins=('bitcoin', 'testnet3')):
                'truncation / extension of each, all 256 opcodes alone / leading / mid-script, witness version 0..17 x program length 1..42 (+ illegal lengths), m x n multisig grid 0..17 with wrong n, every non-push opcode in a multisig key slot, fixed witness programs (pay-to-anchor 51024e73 and neighbours, BIP173/350 vectors), the same hash under several templates back to back, '
                'non-pushnum n, up to 300 pushes, every push form in every template slot with lengths 0..65535 and every truncation incl. inside PUSHDATA length fields, no-op insertions at every '
                'position, OP_RETURN payload grid, scripts of 9999..12345 bytes, random token sequences and random bytes; compared per (script, coin): binary vs extracted model vs an independent python '
-               'transcription of the reference rules, and every reported address is decoded (checksum, prefix, embedded hash). Non-trivial: reference class is not NotRecognised, or a one-step '
+               'transcription of the reference rules, and every reported address is decoded (checksum, prefix, embedded hash); black-box subset through csvdump / unspentcsvdump / balances / simplestats incl. the longest addresses (v1..v16 programs of 33..40 bytes) and other spellings of the coin name. Non-trivial: reference class is not NotRecognised, or a one-step '
                'mutation of a template; distinct by (coin, script bytes).')
     st = scripts.stream(r, 300 if quick else 4000, thorough=not quick)
     run_stream(ck, coins, st)
@@ -57,12 +57,29 @@ def explore(ck, coins=('bitcoin', 'testnet3')):
     # black-box subset through csvdump (address column), one chain per network
     cases = []
     for coin in coins[:2]:
-        outs = [(i, s) for i, (t, s) in enumerate(st[::max(1, len(st) // 150)] + [x for x in st if x[0] in ('samehash', 'witness:fixed')]) if len(s) < 3000]
+        long_wit = [x for x in st if x[0] == 'witness' and len(x[1]) >= 35 and x[1][0] != 0]        # v1..v16 programs of 33..40 bytes: the longest addresses there are (up to 74 characters)
+        BIGV = [2100000000000000, 2100000000000001, 5 * 10**16, 2**60, 2**61]      # the verdict is a function of the script bytes alone, whatever the value (incl. above 21M coins; 8 such outputs, the range total stays below 2^64)
+        outs = [(i if (i % 7 or i >= 56) else BIGV[(i // 7) % 5], s) for i, (t, s) in enumerate(st[::max(1, len(st) // 150)] + [x for x in st if x[0] in ('samehash', 'witness:fixed') or x[0].startswith('nameop:')] + long_wit[::3]) if len(s) < 3000]
         txs = [coinbase_tx(1, [(1, P2PKH(b'\x01' * 20))])] + [Tx([(gen.rb(r, 32), 0, b'', 0)], [(v, s) for v, s in outs[k:k + 25]]) for k in range(0, len(outs), 25)]
         g = gen.GENESIS[coin] if coin in gen.GENESIS else Block(b'\x00' * 32, [coinbase_tx(0, [(1, b'\x51')])])
         b1 = Block(g.hash, txs)
-        c = Case('bb_' + coin, coin).simple_layout([g, b1]); c.meta['cbs'] = ['csv', 'unspent', 'stats']; cases.append(c)
-    core.compare_cases(ck, cases, lambda c: c.meta['cbs'])
+        c = Case('bb_' + coin, coin).simple_layout([g, b1]); c.meta['cbs'] = ['csv', 'unspent', 'stats']; cases.append(c)      # (balances: totals of the huge values exceed u64, outside C08's domain)
+        if coin in ('testnet3', 'bitcoin', 'litecoin'):
+            # other spellings of the coin name: whatever the command line accepts must give that coin's result (a spelling it rejects gives no result at all)
+            for sp in [coin.capitalize(), coin.upper(), 'TestNet3' if coin == 'testnet3' else coin.title()]:
+                import copy
+                c2 = copy.copy(c); c2.id = 'bb_%s_as_%s' % (coin, sp); c2.coin_spelling = sp; c2.meta = dict(c.meta, cbs=['csv'], spelling=sp); cases.append(c2)
+    def spelled(c):
+        return c.meta['cbs']
+    models, results = core.compare_cases(ck, [c for c in cases if 'spelling' not in c.meta], lambda c: c.meta['cbs'])
+    sp_cases = [c for c in cases if 'spelling' in c.meta]
+    if sp_cases:
+        ms = run.run_model(ck.tools, sp_cases, ['csv'])
+        for c in sp_cases:
+            rr = run.run_impl(ck.tools, c, 'csv'); ck.evaluated(); ck.count('coin name spellings')
+            if rr.rc != 0 and not [n for n in rr.files if not n.endswith('.tmp')]: ck.count('spelling rejected by the command line'); continue
+            diffs = run.cmp_csv(rr, ms[c.id], c)
+            if diffs: ck.disagreement('--coin %s accepted but the result is not that of %s' % (c.meta['spelling'], c.coin), '\n'.join(diffs)[:1500], c, in_domain=True)
 
 def replay(ck, path):
     rc = 0
